@@ -471,10 +471,16 @@ fn failure_violation(property: &str, payload: &str) -> Violation {
         // which roles are blocked: parse "task N" ids out of shuttle's message
         let mut blocked: BTreeSet<String> = BTreeSet::new();
         let roles_map = simsync::sim::roles();
+        // shuttle prints each blocked task as "<name> (task <label>(<id>)[, pending future])"
         let mut rest = payload;
-        while let Some(pos) = rest.find("task ") {
-            rest = &rest[pos + 5..];
-            let num: String = rest.chars().take_while(|c| c.is_ascii_digit()).collect();
+        while let Some(pos) = rest.find("(task ") {
+            rest = &rest[pos + 6..];
+            let end = rest.find(|c| c == ')' ).unwrap_or(rest.len());
+            let inner = &rest[..end];
+            let num: String = match inner.rfind('(') {
+                Some(p) => inner[p + 1..].chars().take_while(|c| c.is_ascii_digit()).collect(),
+                None => inner.chars().filter(|c| c.is_ascii_digit()).collect(),
+            };
             if let Ok(t) = num.parse::<usize>() {
                 let name = if t == 0 { "main".to_string() } else { roles_map.get(&t).map(|r| r.name().to_string()).unwrap_or_else(|| "caller".to_string()) };
                 blocked.insert(name);
